@@ -81,6 +81,17 @@ def fam_generator(rnd, full):
         yield C("use-generator", f"call/{fn}", "side-effecting-element", f"def g(x):\n    print('eval', x)\n    return x\ndef f(xs):\n    return {call(f'[{gelem} for x in xs]')}\nfor xs in ([1, 0, 3], [0, 2], [5]):\n    print(f(xs))\n")
     yield C("use-generator", "call/any", "shadowed-builtin", "def any(x):\n    return type(x).__name__\nprint(any([y for y in range(3)]))\n")
     yield C("use-generator", "call/sum", "extra-argument", "print(sum([x for x in range(4)], 10))\n")
+    # the same name is the builtin in one scope and something else in another (parameter default, local rebinding, nested def) - in either source order
+    for fn, other in (("sum", "len"), ("any", "list"), ("max", "len"), ("sorted", "len")):
+        use = f"{fn}([v * 2 for v in values])"
+        builtin_fn = f"def total(values):\n    return {use}\n"
+        shadow_param = f"def size(values, {fn}={other}):\n    return {use}\n"
+        shadow_local = f"def size2(values):\n    {fn} = {other}\n    return {use}\n"
+        tail = "print(repr(total([1, 2, 3])), repr(size([1, 2, 3])), repr(size2([4, 5])))\n"
+        yield C("use-generator", f"call/{fn}", "builtin-then-shadowed-in-other-scope", builtin_fn + shadow_param + shadow_local + tail)
+        yield C("use-generator", f"call/{fn}", "shadowed-then-builtin-in-other-scope", shadow_param + shadow_local + builtin_fn + tail)
+    yield C("use-set-literal", "set-call", "builtin-then-shadowed-in-other-scope", "def a():\n    return set([3, 1, 2])\ndef b(set=sorted):\n    return set([3, 1, 2])\nprint(sorted(a()), b())\n")
+    yield C("use-set-literal", "set-call", "shadowed-then-builtin-in-other-scope", "def b(set=sorted):\n    return set([3, 1, 2])\ndef a():\n    return set([3, 1, 2])\nprint(sorted(a()), b())\n")
 
 def fam_misc(rnd, full):
     yield C("use-set-literal", "set-call", "plain", "print(sorted(set([3, 1, 2, 1])))\nprint(set([]))\nx = set(['a'])\nx.add('b')\nprint(sorted(x))\nprint(set(()))\nprint(sorted(set((1, 2))))\n")
